@@ -405,10 +405,15 @@ func VerifC02UpdateAnchored() {
 		x.Anchor = "x"
 		y := vInt(v2)
 		y.Anchor = "y"
-		return vDoc(vMap(vStr("a"), x, vStr("b"), &yaml.Node{Kind: yaml.AliasNode, Value: "x", Alias: x}, vStr("s"), y, vStr("t"), &yaml.Node{Kind: yaml.AliasNode, Value: "y", Alias: y}))
+		z := vNull()
+		z.Anchor = "z"
+		return vDoc(vMap(vStr("a"), x, vStr("b"), &yaml.Node{Kind: yaml.AliasNode, Value: "x", Alias: x}, vStr("s"), y, vStr("t"), &yaml.Node{Kind: yaml.AliasNode, Value: "y", Alias: y},
+			vStr("n"), z, vStr("m"), &yaml.Node{Kind: yaml.AliasNode, Value: "z", Alias: z}))
 	}
 	forms := [][2]string{{".a *= {\"d\": 7770003}", ".a = .a * {\"d\": 7770003}"}, {".a += {\"d\": 7770003}", ".a = .a + {\"d\": 7770003}"}, {".a *= {\"c\": 7770003}", ".a = .a * {\"c\": 7770003}"},
-		{".s += 7770003", ".s = .s + 7770003"}, {".s -= 7770003", ".s = .s - 7770003"}, {".s *= 7770003", ".s = .s * 7770003"}, {".a |= . + {\"d\": 7770003}", ".a = .a + {\"d\": 7770003}"}, {".a *=n {\"d\": 7770003}", ".a = .a *n {\"d\": 7770003}"}}
+		{".s += 7770003", ".s = .s + 7770003"}, {".s -= 7770003", ".s = .s - 7770003"}, {".s *= 7770003", ".s = .s * 7770003"}, {".a |= . + {\"d\": 7770003}", ".a = .a + {\"d\": 7770003}"}, {".a *=n {\"d\": 7770003}", ".a = .a *n {\"d\": 7770003}"},
+		// an anchored null: the calculation returns a fresh node (null + K is K)
+		{".n += 7770003", ".n = .n + 7770003"}, {".n += [7770003]", ".n = .n + [7770003]"}, {".n += {\"d\": 7770003}", ".n = .n + {\"d\": 7770003}"}}
 	fi := verifChoice("form", len(forms))
 	label := "form=" + forms[fi][0]
 	run := func(text string) (*CandidateNode, bool) {
@@ -431,6 +436,9 @@ func VerifC02UpdateAnchored() {
 	target, name := d1.Content[1], "x"
 	if fi >= 3 && fi <= 5 {
 		target, name = d1.Content[5], "y"
+	}
+	if fi >= 8 {
+		target, name = d1.Content[9], "z"
 	}
 	verifAssert(target.Anchor == name, "C02/compound-assignment-dropped-the-anchor-of-its-target "+label)
 	verifCover("C02/anchored/end")
